@@ -85,6 +85,27 @@ func BounceBetween(prob float64) func(e *core.Engine, rng *rand.Rand, blockNo in
 	}
 }
 
+// BounceVictimBetween kills and at once restarts one live non-reference replica between two blocks with the given
+// probability: the restart a real node most often goes through (nothing in flight), which the per-site crash rate
+// reaches only once in as many crashes as a block has scheduling sites.
+func BounceVictimBetween(prob float64) func(e *core.Engine, rng *rand.Rand, blockNo int) []*core.Step {
+	return func(e *core.Engine, rng *rand.Rand, blockNo int) []*core.Step {
+		if blockNo == 0 || rng.Float64() >= prob {
+			return nil
+		}
+		var live []int
+		for i, r := range e.C.Replicas {
+			if i > 0 && r.Up {
+				live = append(live, i)
+			}
+		}
+		if len(live) == 0 {
+			return nil
+		}
+		return []*core.Step{{Kind: "bounce", Replica: live[rng.Intn(len(live))]}}
+	}
+}
+
 func chainBetween(a, b func(e *core.Engine, rng *rand.Rand, blockNo int) []*core.Step) func(e *core.Engine, rng *rand.Rand, blockNo int) []*core.Step {
 	if a == nil {
 		return b
